@@ -72,6 +72,28 @@ def gen_pairs(ctx):
     return pairs
 
 
+LIT_TOKENS = ['$$', '$&', '$`', '$1', '$<a>', '$0', '%', '_', '%', '_', 'a', 'b', '$', '&', '.', '*', '(', '[', '+', '?', '|', '^', '{0}', '{}']
+
+
+def gen_literal_cases(ctx):
+    """the pattern written as a string LITERAL in the query text (the usual way to use like()): it travels through the query
+    rewriting (literals are cut out and put back), where '$' sequences, braces and quotes of the other kind must stand for themselves"""
+    rng = ctx.rng
+    cases = []
+    for _ in range(250 if ctx.tier == 'quick' else 20000):
+        q = rng.choice(['"', "'"])
+        toks = LIT_TOKENS + (["$'", "'"] if q == '"' else ['$"', '"'])
+        p = ''.join(rng.choice(toks) for _ in range(rng.randint(1, 4)))
+        texts = set(['', p, p.replace('$$', '$'), p.replace('$&', '&'), p.replace('%', '').replace('_', 'a')])
+        for _ in range(6):
+            t = ''.join((''.join(rng.choice('ab$&') for _ in range(rng.randint(0, 2))) if ch == '%' else rng.choice('ab$&') if ch == '_' else ch) for ch in p)
+            texts.add(t)
+            texts.add(t.replace('$$', '$', 1))
+            texts.add(t + rng.choice(['', '$', 'a']))
+        cases.append({'rows': [[t, p] for t in sorted(texts)], 'literal': p, 'quote': q})
+    return cases
+
+
 def to_cases(pairs, rng):
     rng.shuffle(pairs)
     cases = []
@@ -92,7 +114,8 @@ def run(ctx):
     ctx.rule = ('all (text, pattern) over the 14-letter alphabet {a b %% _ . * \\ [ ( ^ $ + ? |} up to length %s exhaustively, '
                 'structured random pairs up to length 5 (pattern derived from text), random Unicode pairs incl. LF/CR/U+2028; '
                 'non-trivial = distinct pair whose pattern contains %% or _ and whose text is non-empty') % ('2x2' if ctx.tier == 'quick' else '3x2 and 2x3')
-    cases = to_cases(pairs, ctx.rng)
+    cases = to_cases(pairs, ctx.rng) + gen_literal_cases(ctx)
+    ctx.rule += '; patterns written as string literals in the query text (tokens incl. $$ $& $` $\' $1 {0} and the other quote) x texts derived from them'
     for fl, name in ((0, 'py'), (1, 'js')):
         cs = cases if fl == 0 else [c for c in cases if bmp_only(c)]   # JS strings are UTF-16: stay in the BMP there
         args = [lib.enc([fl, [[t, p] for t, p in c['rows']]]) for c in cs]
@@ -109,6 +132,8 @@ def run(ctx):
                 if t and ('%' in p or '_' in p):
                     ctx.nontriv((t, p))
                 ctx.stat('%s_%s' % (name, 'match' if b else 'nomatch'))
+            if c.get('literal') is not None:
+                ctx.stat('%s_literal_pattern_queries' % name)
         ctx.sample_safe(lambda: {'impl': name, 'rows': cs[0]['rows'][:4], 'model': exp[0][:4], 'implementation': got[0][:4]})
 
 
